@@ -98,6 +98,10 @@ def answer (trap : String) (f : List String) : Option (String × String) :=
       | .ok _ => showB b
       | .typeError => "TE"
     pure (mech, showOut showB (specDelete cur.toCur ext b thr))
+  | "cons", [res] => do
+    let res ← parseVal? res
+    pure (showOut (fun o => "v:o" ++ toString o) (mechConstruct res), showOut (fun o => "v:o" ++ toString o) (specConstruct res))
+  | "keys", [_, _, "nil"] => some ("TE", "TE")      -- the trap returned null / a nil *Object: not array-like (§7.3.19)
   | "keys", [ext, tk, items] => do
     let ext ← parseBit? ext
     let tk ← parseTKeys? tk
